@@ -93,7 +93,7 @@ def main(argv=None):
         return do_replay(prop, mod, args.replay)
 
     known = load_known(prop)
-    timeout_ms = 5000 if tier == "quick" else 60000
+    timeout_ms = 8000 if tier == "quick" else 60000
     status = 0
     notes = []
     groups = []
@@ -183,13 +183,31 @@ def main(argv=None):
     regressed = []
     still_unknown = []
     retry_ix = []
+    flaky_retry = []
     for r in unknown:
         label = _unit_of(r.name, unit_sha)
         b = baseline.get(label)
         if b and b.get("sha") != unit_sha.get(label) and norm_name(r.name) in set(b.get("names", [])):
             retry_ix.append(r)
+        elif b and b.get("sha") == unit_sha.get(label) and norm_name(r.name) in set(b.get("names", [])):
+            # discharged at baseline, source unchanged, now `unknown`: solver time (machine load), not semantics.
+            # Retried once at the longer budget; still unknown => undecided (never a violation)
+            flaky_retry.append(r)
         else:
             still_unknown.append(r)
+    if flaky_retry:
+        names = {r.name for r in flaky_retry}
+        regroups = [(ax, [o for o in obs if o.name in names]) for ax, obs in groups]
+        again = solve.discharge(regroups, timeout_ms=timeout_ms * 4, use_cvc5=True)
+        for r in again:
+            if r.status == "unsat":
+                discharged.append(r)
+            elif r.status == "sat":
+                failed.append(r)
+            else:
+                still_unknown.append(r)
+        proper = [x for x in proper if x.name not in names] + again
+        notes.append("%d obligations were retried at the longer budget on unchanged source (solver time)" % len(flaky_retry))
     # the retry is expensive (4x budget, three seeds, two solvers): at most RETRY_PER_UNIT obligations of a unit are
     # retried first; if one of them is confirmed as failed the unit is refuted and the rest are not retried (they stay
     # `unknown`, listed in the evidence); if all of them discharge, the rest are retried too
@@ -337,7 +355,7 @@ def main(argv=None):
         cov["rule"] = bounded.get("rule", "")
     ev = {
         "property_id": prop, "tier": tier, "seed": seed, "level": level, "coverage": cov,
-        "assumptions": list(getattr(mod, "ASSUMPTIONS", [])),
+        "assumptions": list(getattr(mod, "ASSUMPTIONS", [])) + _scan_assumed_models(units),
         "wall_s": round(wall, 2), "violations": len(violations),
         "exit_status": status,
         "known_findings": known_lines,
@@ -366,6 +384,58 @@ def _count(xs):
     for x in xs:
         out[x] = out.get(x, 0) + 1
     return out
+
+
+def _scan_assumed_models(units):
+    """mechanical scan (run before every report): every call model / hook of the contracts used in this run whose body
+    contains `ctx.assume(` introduces facts about a callee or a library that are assumed, not proved here (where the
+    callee is itself under contract in this or another check, the model transcribes that contract: its docstring says so)"""
+    import inspect
+    out, seen = [], set()
+    for u in units:
+        c = getattr(u, "contract", None)
+        if c is None:
+            continue
+        for cls in type(c).__mro__:
+            if cls.__module__ in ("builtins", "pyvc.contracts"):
+                continue
+            for name, fn in vars(cls).items():
+                f = fn.fget if isinstance(fn, property) else fn
+                if not callable(f) or (cls.__name__, name) in seen:
+                    continue
+                try:
+                    src = inspect.getsource(f)
+                except (OSError, TypeError):
+                    continue
+                if "ctx.assume(" not in src and ".assume(" not in src:
+                    continue
+                if name in ("params", "ghosts", "setup", "requires"):
+                    continue            # input validity / preconditions: listed by the contract itself
+                seen.add((cls.__name__, name))
+                doc = (inspect.getdoc(f) or "model of a callee / library operation (no docstring)").strip().splitlines()[0]
+                out.append("assumed in %s.%s.%s: %s" % (cls.__module__.replace("contracts.", ""), cls.__name__, name, doc[:200]))
+    # module-level helpers of the contract modules in use (e.g. c17.unify_step, astspec list operations)
+    import sys as _sys
+    mods = set()
+    for u in units:
+        c = getattr(u, "contract", None)
+        if c is not None:
+            for cls in type(c).__mro__:
+                if cls.__module__.startswith("contracts."):
+                    mods.add(cls.__module__)
+    for mname in sorted(mods):
+        m = _sys.modules.get(mname)
+        for name, f in sorted(vars(m).items()) if m else []:
+            if not inspect.isfunction(f) or f.__module__ != mname:
+                continue
+            try:
+                src = inspect.getsource(f)
+            except (OSError, TypeError):
+                continue
+            if "ctx.assume(" in src:
+                doc = (inspect.getdoc(f) or "helper that adds facts (no docstring)").strip().splitlines()[0]
+                out.append("assumed in %s.%s: %s" % (mname.replace("contracts.", ""), name, doc[:200]))
+    return ["[scan] " + x for x in sorted(set(out))]
 
 
 def _git_head():
